@@ -3,6 +3,7 @@ package redis
 
 import (
 	"io"
+	"time"
 
 	nd "github.com/samaritan-proxy/samaritan/vfnd"
 )
@@ -49,6 +50,51 @@ func VfC01_ReplyFraming() {
 	nd.Assert(consumed == len(sink.b), "the reply bytes are exactly one RESP value (no request content can add or remove a reply)")
 	_, err = dec.Decode()
 	nd.Assert(err == io.EOF, "nothing follows the reply")
+}
+
+// VfC01_HotKeyReply: the HOTKEY report embeds key names other clients sent (arbitrary bytes, CR LF
+// included). Whatever those names are, the report is, on the wire, exactly one RESP value.
+func VfC01_HotKeyReply() {
+	nd.ConcreteClock(true)
+	p, _ := vfNewProc(nil, "10.0.0.1:7000")
+	key := nd.Bytes("key", nd.Param("keylen", 4))
+	ctr := p.u.hkc.AllocCounter("10.0.0.1:7000")
+	ctr.Incr(string(key)) // some connection accessed this key
+	stop := make(chan struct{})
+	go p.u.hkc.Run(stop) // the collector's period elapses (its tickers may fire)
+	nd.Quiesce()
+	if !nd.Symbolic() {
+		// native replay: really wait for the collector's 10 s period
+		for i := 0; i < 130 && len(p.u.HotKeys()) == 0; i++ {
+			time.Sleep(100 * time.Millisecond)
+		}
+	}
+	close(stop)
+	nd.Quiesce()
+	if len(p.u.HotKeys()) == 0 {
+		return
+	}
+	nd.Cover("key-collected")
+	raw := newRawRequest(newArray(*newBulkString("hotkey")))
+	nd.PanicLabel("handleRequest")
+	p.handleRequest(raw)
+	nd.Assert(vfDone(raw.done), "HOTKEY is answered locally")
+	if !vfDone(raw.done) {
+		return
+	}
+	sink := &vfSink{}
+	enc := newEncoder(sink, 8192)
+	nd.Assert(enc.Encode(raw.Response()) == nil && enc.Flush() == nil, "the reply can be encoded")
+	dec := newDecoder(&vfChunkReader{data: sink.b}, 4096)
+	v, err := dec.Decode()
+	nd.Assert(err == nil && v.Type == raw.Response().Type, "the report decodes to one value of the reply's type")
+	if err != nil {
+		return
+	}
+	consumed := len(sink.b) - dec.br.buffered()
+	nd.Assert(consumed == len(sink.b), "the report is exactly one RESP value whatever bytes the collected key names contain")
+	_, err = dec.Decode()
+	nd.Assert(err == io.EOF, "nothing follows the report")
 }
 
 // VfC01_Split: MGET / MSET / DEL-family requests are split per key in argument order; whatever
